@@ -184,6 +184,9 @@ func runRPCPath(g *rpcGroup, path []rpcStep, res *hx.Result, probe bool) (sig, d
 			rg.clients[st.Act.P].send(st.Act.R, nil)
 		case "Handle":
 			rg.nd.cm.release(peerIdx(st.Act.P), st.Act.R)
+		case "CloseListener":
+			rg.nd.l.Close() // the first statement of Syncer.Close
+			stopped = true
 		case "StopBegin":
 			rg.nd.beginClose()
 			stopped = true
@@ -296,6 +299,22 @@ func (rg *rpcRig) slotProbe() (string, string) {
 		}
 	}
 	return "", ""
+}
+
+// syncerStacks returns the stacks of the goroutines inside the syncer package (diagnostics).
+func syncerStacks() string {
+	buf := make([]byte, 8<<20)
+	buf = buf[:runtime.Stack(buf, true)]
+	var out []string
+	for _, g := range strings.Split(string(buf), "\n\n") {
+		if strings.Contains(g, "go.sia.tech/coreutils/syncer.") {
+			out = append(out, g)
+		}
+	}
+	if len(out) > 6 {
+		out = out[:6]
+	}
+	return strings.Join(out, "\n\n")
 }
 
 // syncerGoroutines counts goroutines that are executing code of the syncer package.
